@@ -225,6 +225,9 @@ class QGrammar:
         if self.barrier_block_objects and kind in ("basync", "bsync", "baaw") and (b >> 5) % 4 == 0:
             o.b |= 2         # the barrier is a property of the block object (DISPATCH_BLOCK_BARRIER) handed to the plain dispatch_async/sync/async_and_wait
             P.features.add("barrier-from-block-object")
+        if self.barrier_block_objects and not (o.b & 2) and kind in ("async", "basync", "sync", "bsync", "aaw", "baaw") and (b >> 6) % 4 == 0:
+            o.b |= 4         # a flag-less block OBJECT (dispatch_block_create(0, ...)) handed to the API of this kind
+            P.features.add("plain-block-object")
         if kind in e3.ASYNC_KINDS:
             env.pending.append(o)
         # item body
